@@ -142,10 +142,20 @@ theorem encPre_time_disables (r : PReq) (h : r.hasTime = true) : encPre false r 
 
 def d0 : Bytes := List.replicate 64 48     -- sixty-four '0'
 
-/-- F-C02-a: two pairs of languages share a tag, so requests that differ only in the language share a key -/
+/-- F-C02-a: one pair of languages shares a tag, so requests that differ only in that language share a key.  (`CudaFE` is the
+    language of the `cudafe++` compiler kind only, whose executable digest is part of the key: no request reaches both.) -/
 theorem langTag_alias_witness :
-    Lang.objcxx ≠ Lang.objcxxHeader ∧ langTagBytes .objcxx = langTagBytes .objcxxHeader ∧
     Lang.cuda ≠ Lang.cudaFE ∧ langTagBytes .cuda = langTagBytes .cudaFE := by decide
+
+/-- F-C02-d (fixed 55dc400; was a real alias: `clang -x objective-c++-header -c h.h -o out` then `clang -x objective-c++ -c h.h -o out`
+    delivered the precompiled header as the object): **every** pair of distinct languages other than `Cuda`/`CudaFE` has distinct tags
+    (`decide` over the whole regenerated table) -/
+theorem langTags_distinct_except_cudaFE :
+    allLangs.all (fun l1 => allLangs.all fun l2 =>
+      l1 == l2 || (l1 == .cuda && l2 == .cudaFE) || (l1 == .cudaFE && l2 == .cuda) || langTagBytes l1 != langTagBytes l2) = true := by
+  decide
+
+theorem objcxx_header_tag_fixed_witness : langTagBytes .objcxx ≠ langTagBytes .objcxxHeader := by decide
 
 /-- F-C02-b: the tag is not delimited from what follows: `C` + payload `Header_t` ≡ `CHeader` + payload `_t` -/
 theorem tag_payload_alias_witness :
